@@ -74,6 +74,9 @@ pub struct RunResult {
     pub metadata_queries: u64,
     /// what the run leaves behind for the next run of its session
     pub disk_after: world::Disk,
+    /// the second instance that ran while this one was running (sessions only)
+    pub intruder: Option<Box<RunResult>>,
+    pub company_ambiguous: bool,
 }
 
 /// What a run of a session starts from and where it is cut short.
@@ -81,6 +84,47 @@ pub struct RunResult {
 pub struct RunEnv {
     pub disk: Option<world::Disk>,
     pub crash: Option<world::CrashPlan>,
+    pub intruder: Option<world::IntruderPlan>,
+}
+
+/// A second instance starts now, on the disk as the running instance has left it so far, and runs
+/// to completion before the running instance goes on (called from inside a seam of the running
+/// instance; neither instance uses threads).
+pub fn run_intruder(plan: world::IntruderPlan) {
+    let mut outer = world::uninstall();
+    let disk = world::Disk {
+        files: outer.written.clone(),
+        mtimes: outer.mtimes.clone(),
+        removed: outer.removed.clone(),
+        clock_ns: outer.clock_ns + 1_000,
+        mtime_seed: outer.mtime_seed,
+        epoch: outer.epoch + 100,
+    };
+    let gen = if plan.gen_id == 0 { Gen::Layout } else { Gen::Likely };
+    let env = RunEnv {
+        disk: Some(disk),
+        crash: None,
+        intruder: None,
+    };
+    let image = outer.image.clone();
+    let outer_panic = world::PANIC_INFO.with(|p| p.borrow_mut().take());
+    let r = execute_once(gen, &image, plan.mode, false, false, None, false, &env);
+    world::PANIC_INFO.with(|p| *p.borrow_mut() = outer_panic);
+    // did it touch a file the running instance holds open for writing? (inode identity decides
+    // what happens then; the simulated disk knows files by name only)
+    for k in outer.open_writers.keys() {
+        if r.disk_after.files.get(k) != outer.written.get(k) || r.disk_after.removed.contains(k) != outer.removed.contains(k) {
+            outer.company_ambiguous = true;
+        }
+    }
+    // what the second instance did to the disk is what the first one finds when it goes on
+    outer.written = r.disk_after.files.clone();
+    outer.mtimes = r.disk_after.mtimes.clone();
+    outer.removed = r.disk_after.removed.clone();
+    outer.clock_ns = outer.clock_ns.max(r.disk_after.clock_ns) + 1_000;
+    outer.event("second_instance", r.log_digest, r.events);
+    outer.intruder_result = Some(Box::new(r));
+    world::install(outer);
 }
 
 /// Install the process-wide panic hook once: inside a simulated run a panic is recorded
@@ -368,6 +412,8 @@ fn failed_result(gen: Gen, profile: Option<Profile>, panic: String) -> RunResult
         fs_mutations: 0,
         metadata_queries: 0,
         disk_after: world::Disk::default(),
+        intruder: None,
+        company_ambiguous: false,
     }
 }
 
@@ -421,6 +467,10 @@ fn execute_once(
         fresh.load_disk(d);
     }
     fresh.crash = env.crash;
+    if !crate::isolate::ISOLATE.load(std::sync::atomic::Ordering::Relaxed) {
+        // (a nested execution in one process would share the program's statics)
+        fresh.intruder = env.intruder.clone();
+    }
     if under_shuttle {
         fresh.stats.shuttle_runs = 1;
         fresh.under_shuttle = true;
@@ -498,6 +548,8 @@ fn execute_once(
         crash_points: w.crash_points,
         fs_mutations: w.fs_mutations,
         metadata_queries: w.metadata_queries,
+        intruder: w.intruder_result.take(),
+        company_ambiguous: w.company_ambiguous,
         disk_after,
         gen,
         profile,
@@ -597,6 +649,8 @@ pub struct Step {
     pub gap_ns: i64,
     /// the run saw an earlier version of the data (never for the last run of a session)
     pub drift: Vec<world::Drift>,
+    /// a second instance of a generator runs while this one is running
+    pub intruder: Option<world::IntruderPlan>,
 }
 
 pub struct SessionResult {
@@ -628,6 +682,7 @@ pub fn execute_session(gen: Gen, image: &Arc<FsImage>, steps: &[Step], mtime_see
         let env = RunEnv {
             disk: Some(disk.clone()),
             crash: st.crash,
+            intruder: st.intruder.clone(),
         };
         let r = if st.drift.is_empty() {
             execute_env(gen, image, st.mode.clone(), &env, verbose)
@@ -677,7 +732,13 @@ pub fn session_steps(seed: u64, gen: Gen, image: &FsImage, i: u64, m0: u64) -> (
         // since); such a run is cut short only half of the time
         let drift = if rng.chance(1, 2) { image.draw_drift(&mut rng) } else { vec![] };
         let crash = if !drift.is_empty() && rng.chance(1, 2) { None } else { Some(crash) };
-        steps.push(Step { mode, crash, gap_ns, drift });
+        steps.push(Step {
+            mode,
+            crash,
+            gap_ns,
+            drift,
+            intruder: None,
+        });
     }
     let mode = mode_of(&mut rng, 3);
     let gap_ns = gap_of(&mut rng);
@@ -686,7 +747,22 @@ pub fn session_steps(seed: u64, gen: Gen, image: &FsImage, i: u64, m0: u64) -> (
         crash: None,
         gap_ns,
         drift: vec![],
+        intruder: None,
     });
+    // one run in four of a session has company: a second instance (the same program two times in
+    // three, else the other generator) started while it runs. Drawn last, so that the histories of
+    // a given seed without company stay what they were.
+    for (j, st) in steps.iter_mut().enumerate() {
+        if rng.chance(1, 4) {
+            let same = rng.chance(2, 3);
+            let g2 = if same { gen } else if gen == Gen::Layout { Gen::Likely } else { Gen::Layout };
+            st.intruder = Some(world::IntruderPlan {
+                gen_id: if g2 == Gen::Layout { 0 } else { 1 },
+                mode: if rng.chance(1, 3) { replay_mode(&[]) } else { random_mode(seed, g2, base | (1 << 39) | j as u64) },
+                at: rng.below(m0 + 1),
+            });
+        }
+    }
     (steps, mtime_seed)
 }
 
@@ -694,6 +770,37 @@ pub fn session_steps(seed: u64, gen: Gen, image: &FsImage, i: u64, m0: u64) -> (
 /// that finds the leftovers of a crashed predecessor may refuse to work (fail loudly); it may not
 /// complete with a table that differs from what the CLDR data determine.
 pub fn judge_session(s: &SessionResult, comp: &BTreeMap<String, Val>, good: &mut Vec<String>) -> Vec<Violation> {
+    judge_session_with(s, &[], comp, good)
+}
+
+/// `drifted[i]`: run i saw an earlier version of the data (its company did too and cannot be
+/// judged against the bundled data's tables)
+pub fn judge_session_with(s: &SessionResult, drifted: &[bool], comp: &BTreeMap<String, Val>, good: &mut Vec<String>) -> Vec<Violation> {
+    // a second instance that ran to completion while another instance was running must have
+    // printed the tables too (it may refuse to work — a lock — but not print something else)
+    if s.runs.iter().any(|r| r.company_ambiguous) {
+        return vec![];
+    }
+    let mut company: Vec<Violation> = vec![];
+    for (i, r) in s.runs.iter().enumerate() {
+        let Some(r2) = &r.intruder else { continue };
+        if drifted.get(i).copied().unwrap_or(false) || r2.panic.is_some() {
+            continue;
+        }
+        let mut g2 = vec![];
+        for mut v in judge(r2, comp, &mut g2) {
+            v.detail = format!(
+                "a second instance ({}) started while run {} of the session was in the middle of its file-system work and ran to completion: {}",
+                r2.gen.program(),
+                i,
+                v.detail
+            );
+            company.push(v);
+        }
+    }
+    if !company.is_empty() {
+        return company;
+    }
     let last = s.last();
     if last.panic.is_some() && s.runs.len() > 1 {
         return vec![];
@@ -718,23 +825,36 @@ pub fn judge_session(s: &SessionResult, comp: &BTreeMap<String, Val>, good: &mut
 }
 
 /// Explicit form of the steps of an executed session (each run's recorded schedule).
-pub type ExplicitStep = (Vec<Decision>, Option<world::CrashPlan>, i64, Vec<world::Drift>);
+/// (generator id, schedule, file-system mutation before which it starts)
+pub type ExplicitIntruder = (u8, Vec<Decision>, u64);
+pub type ExplicitStep = (Vec<Decision>, Option<world::CrashPlan>, i64, Vec<world::Drift>, Option<ExplicitIntruder>);
 
 pub fn explicit_steps(steps: &[Step], res: &SessionResult) -> Vec<ExplicitStep> {
     steps
         .iter()
         .zip(res.runs.iter())
-        .map(|(st, r)| (r.trace.clone(), st.crash, st.gap_ns, st.drift.clone()))
+        .map(|(st, r)| {
+            let company = match (&st.intruder, &r.intruder) {
+                (Some(p), Some(r2)) => Some((p.gen_id, r2.trace.clone(), p.at)),
+                _ => None, // planned but never started (the run had fewer mutations)
+            };
+            (r.trace.clone(), st.crash, st.gap_ns, st.drift.clone(), company)
+        })
         .collect()
 }
 
 pub fn steps_from_explicit(e: &[ExplicitStep]) -> Vec<Step> {
     e.iter()
-        .map(|(sched, crash, gap, drift)| Step {
+        .map(|(sched, crash, gap, drift, company)| Step {
             mode: replay_mode(sched),
             crash: *crash,
             gap_ns: *gap,
             drift: drift.clone(),
+            intruder: company.as_ref().map(|(g, sc, at)| world::IntruderPlan {
+                gen_id: *g,
+                mode: replay_mode(sc),
+                at: *at,
+            }),
         })
         .collect()
 }
@@ -754,7 +874,8 @@ pub fn minimise_session(
         tests += 1;
         let r = execute_session(gen, image, &steps_from_explicit(e), mtime_seed, false);
         let mut good = vec![];
-        judge_session(&r, comp, &mut good).iter().any(|v| violation_class(v) == target)
+        let drifted: Vec<bool> = e.iter().map(|x| !x.3.is_empty()).collect();
+        judge_session_with(&r, &drifted, comp, &mut good).iter().any(|v| violation_class(v) == target)
     };
     let mut cur = steps;
     if !fails(&cur) {
@@ -780,6 +901,16 @@ pub fn minimise_session(
         cand[i].0 = cand[i].0.iter().map(|d| d.defaulted()).collect();
         if fails(&cand) {
             cur = cand;
+        }
+    }
+    // no company where none is needed
+    for i in 0..cur.len() {
+        if cur[i].4.is_some() {
+            let mut cand = cur.clone();
+            cand[i].4 = None;
+            if fails(&cand) {
+                cur = cand;
+            }
         }
     }
     // fewer differences between the data versions, no crash where none is needed
